@@ -3,6 +3,7 @@ package main
 // Trusted contracts for functions outside the module (assumption groups A-LIB, A-STR, A-CODEC, A-CAL, A-FLOAT).
 
 import (
+	"math"
 	"go/token"
 	"go/types"
 	"strings"
@@ -150,7 +151,17 @@ func init() {
 		return &Val{T: Not(And(Le(IntLit(0x80), b), Lt(b, IntLit(0xC0)))), Typ: boolT}
 	}
 	// ---- math (A-FLOAT) ----
+	// math.Log2 of a literal: folded with the very function the program calls (no model involved)
+	prelude["math.Log2"] = func(x *Exec, st *State, callee *ssa.Function, args []*Val, pos token.Pos) *Val {
+		if f, ok := realLitVal[args[0].T.id]; ok && f > 0 {
+			return &Val{T: realLit(math.Log2(f)), Typ: types.Typ[types.Float64]}
+		}
+		return x.unmodelled(st, callee, args)
+	}
 	prelude["math.Ceil"] = func(x *Exec, st *State, callee *ssa.Function, args []*Val, pos token.Pos) *Val {
+		if f, ok := realLitVal[args[0].T.id]; ok {
+			return &Val{T: realLit(math.Ceil(f)), Typ: types.Typ[types.Float64]}
+		}
 		x.trusted["A-FLOAT"] = true
 		r := args[0].T
 		real := mkSort("Real")
